@@ -47,7 +47,9 @@ def queue_bookkeeping(ctx, RB, RD, RR):
         for cname, mname, n in field_writes(m.tree, field):
             writes.append((cname or "<module>", mname, norm_stmt(n), f"{m.relpath}:{n.lineno}"))
     if not writes:
-        raise AnalysisError("anchor vanished: no write of _last_item anywhere")
+        # no shadow field at all: the other way to know "the last enqueued, still pending item" is the tail of the base queue's
+        # own deque -- decided by the tail-peek rules
+        return tail_peek_design(ctx, RB, RD, RR, q)
     # a private helper of the queue class counts as part of the primitives if every call of it, anywhere in the package, is made
     # from a primitive (or from another such helper): it then runs only with the queue's mutex held
     allowed = set(PRIMS)
@@ -117,12 +119,145 @@ def queue_bookkeeping(ctx, RB, RD, RR):
     return q
 
 
+DEQ = "self.queue"  # queue.Queue's own deque: _put appends on the right, _get pops on the left, both under self.mutex
+
+
+def _uses_tail_peek(P) -> bool:
+    q = P.cls("SkipRepeatsQueue")
+    from ..fixtures import field_writes
+
+    has_shadow = any(field_writes(m.tree, "_last_item") for m in P.modules.values())
+    reads_deque = any(isinstance(n, ast.Attribute) and n.attr == "queue" and isinstance(n.value, ast.Name) and n.value.id == "self" for mf in q.methods.values() for n in ast.walk(mf.node))
+    return not has_shadow and reads_deque
+
+
+def tail_peek_design(ctx, RB, RD, RR, q):
+    """The queue keeps no record of its own: the item a new one is compared with is the tail of queue.Queue's deque.  Then
+    (i) the primitives must be the base's (an override must delegate exactly once): append right / pop left is what makes the tail
+    'the last enqueued item that is still pending'; (ii) every access to the deque outside the primitives is made with the queue's
+    mutex held, the emptiness test and the tail read in one critical section (otherwise a get() in between empties it and the
+    tail read raises: the item is neither enqueued nor a duplicate); (iii) nothing to reset on dequeue."""
+    P = ctx.P
+    from ..pse import walk_with_locks
+
+    en = Enumerator(ThreadCfg(P, follow_attrs=False))
+    for prim, base_call in (("_put", "super()._put"), ("_get", "super()._get"), ("_init", "super()._init")):
+        mf = q.methods.get(prim)
+        if mf is None:
+            ctx.ok(RD, f"SkipRepeatsQueue.{prim} (inherited from the base queue)", q.loc)
+            continue
+        paths = en.run(mf, selfcls="SkipRepeatsQueue")
+        ok = all(len([e for e in p.evs if e.kind == "call" and e.extra.get("func") == base_call]) == 1 for p in paths)
+        ctx.check(ok, RD, f"SkipRepeatsQueue.{prim}", f"{prim} does not call {base_call}() exactly once on every path (an item would be lost or duplicated)", mf.loc)
+    # An index read of the deque made without the mutex can fail at any time (a concurrent get() may have emptied it, whatever an
+    # earlier emptiness test said): outside the mutex such a read raises IndexError in this model, and the rule is that none escapes
+    # put().  A single tail read under `except IndexError` is fine; "test non-empty, then read the tail" without the mutex is not.
+    class TailCfg(ThreadCfg):
+        def raises(self, kind, text, node, st):
+            if kind == "subscript" and st.evs and st.evs[-1].kind == "subscript" and st.evs[-1].extra.get("container") == DEQ:
+                held = 0
+                for e_ in st.evs:
+                    if e_.kind == "acquire" and e_.text == "self.mutex":
+                        held += 1
+                    elif e_.kind == "release" and e_.text == "self.mutex":
+                        held -= 1
+                nonempty = any(st.val.get(a_) is True for a_ in (DEQ, f"len({DEQ}) > 0", f"bool({DEQ})")) or st.val.get(f"len({DEQ}) == 0") is False
+                if held > 0 and nonempty:
+                    return ()
+                return ["IndexError"]
+            return ()
+
+    nacc = 0
+    pf_ = q.methods.get("put")
+    if pf_ is None:
+        raise AnalysisError("anchor vanished: SkipRepeatsQueue.put")
+    tpaths = Enumerator(TailCfg(P, follow_attrs=False)).run(pf_, selfcls="SkipRepeatsQueue")
+    nacc = sum(1 for p in tpaths for e in p.flat() if e.kind == "subscript" and e.extra.get("container") == DEQ)
+    esc = [p for p in tpaths if p.outcome[0] == "raise" and str(p.outcome[1]).startswith("IndexError")]
+    if esc:
+        r_ = [e for e in esc[0].evs if e.kind == "raised"]
+        ctx.viol(
+            RB,
+            "SkipRepeatsQueue.put: tail read of the base deque",
+            f"`{r_[-1].extra.get('at', 'self.queue[-1]') if r_ else 'self.queue[-1]'}` is read without the queue's mutex and its IndexError is not handled: a get() that empties the deque between the emptiness test and this read makes put() raise — the item is neither enqueued nor a duplicate (lost), and the producer thread dies [{esc[0].sig()[:80]}]",
+            f"{pf_.module.relpath}:{r_[-1].line if r_ else pf_.node.lineno}",
+        )
+    else:
+        ctx.ok(RB, f"SkipRepeatsQueue.put: {nacc} tail reads of the base deque, none can raise out of put()", pf_.loc)
+    # writes to the deque outside the primitives are never fine
+    nw0 = len([i for i in ctx.instances if not i.ok])
+    for mname, mf in q.methods.items():
+        if mname in PRIMS:
+            continue
+        for n_ in ast.walk(mf.node):
+            if isinstance(n_, ast.Call) and isinstance(n_.func, ast.Attribute) and ast.unparse(n_.func.value) == DEQ and n_.func.attr in ("append", "appendleft", "pop", "popleft", "clear", "remove", "insert", "extend", "rotate"):
+                ctx.viol(RB, f"SkipRepeatsQueue.{mname}: {ast.unparse(n_)[:50]}", "the base queue's deque is changed outside the primitives queue.Queue runs under its mutex", f"{mf.module.relpath}:{n_.lineno}")
+    if len([i for i in ctx.instances if not i.ok]) == nw0:
+        ctx.ok(RB, "SkipRepeatsQueue: the base deque is changed only by the base primitives", q.loc)
+    ctx.ok(RR, "nothing to reset on dequeue (the tail leaves the deque with the item)", q.loc, nontrivial=False)
+    return q
+
+
+def skip_decision_tail_peek(ctx, RS, q):
+    """put() delegates iff not (deque non-empty and item == tail); reads only the item and the deque."""
+    P = ctx.P
+    class _TC(ThreadCfg):
+        def raises(self, kind, text, node, st):
+            # an index read of the deque can find it empty (decided by the critical-section rule whether that may escape)
+            if kind == "subscript" and st.evs and st.evs[-1].kind == "subscript" and st.evs[-1].extra.get("container") == DEQ and not any(st.val.get(a_) is True for a_ in (DEQ, f"len({DEQ}) > 0", f"bool({DEQ})")):
+                return ["IndexError"]
+            return ()
+
+    en = Enumerator(_TC(P, follow_attrs=False))
+    pf = q.methods.get("put")
+    if pf is None:
+        raise AnalysisError("anchor vanished: SkipRepeatsQueue.put")
+    paths = en.run(pf, selfcls="SkipRepeatsQueue")
+    ctx.count("paths", len(paths))
+    pitem = ([a.arg for a in pf.node.args.args if a.arg != "self"] or ["item"])[0]
+    ok, msg, n = True, "", 0
+    foreign: set = set()
+    for p in paths:
+        if p.outcome[0] == "raise":
+            continue
+        n += 1
+        c = p.conds()
+        nonempty = None
+        for a, t in c.items():
+            if a in (DEQ, f"len({DEQ}) > 0", f"len({DEQ})", f"bool({DEQ})"):
+                nonempty = t
+            elif a in (f"len({DEQ}) == 0", f"not {DEQ}"):
+                nonempty = not t
+        eq = next((t for a, t in c.items() if a in (f"{pitem} == {DEQ}[-1]", f"{DEQ}[-1] == {pitem}")), None)
+        if any(e.kind == "caught" and e.text.startswith("IndexError") for e in p.evs):
+            nonempty = False  # the tail read failed and was absorbed: the deque was empty
+        elif eq is not None and nonempty is None and any(e.kind == "subscript" and e.extra.get("container") == DEQ for e in p.evs):
+            nonempty = True  # the tail was read (the read did not fail)
+        foreign |= {a for a in c if not (re.sub(r"\bself\.queue\b", "", a).replace(pitem, "").strip(" ()[]-1=<>!0lenbotn") == "")}
+        deleg = [e for e in p.evs if e.kind == "call" and e.extra.get("func") == "super().put"]
+        if eq is not None and nonempty is not True:
+            ok, msg = False, "the tail is read on a path that has not established that the deque is non-empty"
+        dup = nonempty is True and eq is True
+        if dup and deleg:
+            ok, msg = False, f"put() enqueues a duplicate of the pending last item (path: {p.sig()})"
+        if not dup and len(deleg) != 1:
+            ok, msg = False, f"put() drops an item that is not a duplicate of the pending last item (path: {p.sig()})"
+        for d in deleg:
+            if (d.extra.get("args") or [""])[0] != pitem:
+                ok, msg = False, "put() delegates something other than the item"
+    ctx.check(not foreign, RS, "SkipRepeatsQueue.put decision inputs", f"the skip decision reads something other than the item and the deque: {sorted(foreign)[:3]}", pf.loc)
+    ctx.check(ok and n >= 2, RS, "SkipRepeatsQueue.put truth table (tail peek)", msg or "put() has fewer than two normal paths: no decision is made", pf.loc)
+    ctx.sample({"put_paths": [p.sig() for p in paths]})
+
+
 def skip_decision(ctx, RS, q=None):
     """put() delegates iff (_last_item is None or item != _last_item) and reads nothing else (shared with C01 / C04: a queue that
     skips anything but a pending duplicate drops an event)."""
     P = ctx.P
     field = "_last_item"
     q = q or P.cls("SkipRepeatsQueue")
+    if _uses_tail_peek(P):
+        return skip_decision_tail_peek(ctx, RS, q)
     en = Enumerator(ThreadCfg(P, follow_attrs=False))
     pf = q.methods.get("put")
     if pf is None:
